@@ -237,7 +237,8 @@ theorem finish_bound (r : RState) (opt : Option EOpt) (tsig : Option Tsig) (pad 
     | none => simp at h5; subst h5; exact ⟨hrel_size, hrel_below, hi.hdr, rfl⟩
     | some o =>
       simp only at h5
-      unfold RState.addOpt at h5
+      replace h5 := addOpt_core_of_ok h5
+      unfold RState.addOptCore at h5
       split at h5
       · have := addRRset_ok_bound { r.releaseReserved with wasPadded := true } _ _ r5 hrel_below hi.hdr h5
         exact ⟨this.1, this.2.1, this.2.2.1, this.2.2.2⟩
